@@ -141,7 +141,7 @@ theorem map_ref_insert (m : M κ ν) (k k' : κ) (v : ν) :
     mRef (mInsert m k v) k' = if k' = k then .ok v else mRef m k' := by
   unfold mRef
   rw [map_get_insert]
-  split <;> rfl
+  by_cases h : k' = k <;> simp [h]
 
 /-- `(hash-try-get (hash-remove m k) k')` -/
 theorem map_get_remove (m : M κ ν) (k k' : κ) :
